@@ -54,7 +54,7 @@ theorem argElem_ok (ns : List XNs) (cx : XCtx) (p an v X : Bytes) (self : Option
   have hga : genericAttrs (c4.inp.length + 1) c4 = .ok (c4, []) := by simp [genericAttrs, h4s]
   refine ⟨{ c4 with inp := 10 :: X, status := .elemClose, elems := self :: E, ns := nsRm (self :: E).length c4.ns, pfx := some p, name := an },
     ?_, rfl, rfl, rfl, by simp [h4n, hrm]⟩
-  simp only [parseGeneric, hmk, e1, hga, Except.map, mkwToYKw]
+  simp only [parseGeneric, hmk, remapArg_ext, e1, hga, Except.map, mkwToYKw]
   simp [h4s, h4w, h4v, hne, e2, hpfx, hname]
 
 end LyModel.Yin
